@@ -26,7 +26,7 @@ MAX_WORK = {"quick": 40000, "thorough": 250000}
 FUEL = 100000000
 ROUND_CAP = 20000
 BANK_CAP = 6000
-TIME_CAP = 5.0
+TIME_CAP = 8.0
 CL_CAP = 1500          # values in the global cost list beyond which a run is cut (unaffordable for the differential run)
 
 show, of_prog, subterms, tsize = E.show, E.of_prog, E.subterms, E.tsize
@@ -34,7 +34,7 @@ show, of_prog, subterms, tsize = E.show, E.of_prog, E.subterms, E.tsize
 
 # --------------------------------------------------------------------------- case generation
 CHAIN_DSLS = [
-    # single-rule non-terminals: the uniform probability is 1, the integer cost 0 (finding C02-F4)
+    # single-rule non-terminals: the uniform probability is 1, the integer cost 0 (finding C02-F6)
     [["g", ["->", "a", "b"]], ["h", ["->", "c", "a"]], ["k", "c"]],
     [["isz", ["->", "int", "bool"]], ["+", ["->", "int", ["->", "int", "int"]]], ["1", "int"], ["0", "int"]],
     [["f", ["->", "t", "t"]], ["g", ["->", "t", "t"]], ["c", "t"]],
@@ -133,7 +133,7 @@ def pick_cost(rng, kind, nargs):
         return rng.choice([1, 10, 1000, 10 ** 6, 10 ** 9 + 7, 10 ** 12])
     if kind == "zero-leaf":
         return rng.choice([0, 0, 1, 2, 3]) if nargs == 0 else rng.randint(1, 3)
-    return rng.choice([0, 0, 1, 2])               # zero-any: region of finding C02-F4
+    return rng.choice([0, 0, 1, 2])               # zero-any: region of finding C02-F6
 
 
 def independent_cost(p, threshold):
@@ -307,10 +307,12 @@ def instrument(en, cost_bound, round_cap, cl_cap=None):
         st["rounds"] += 1
         if c is not None and cost_bound is not None and c > cost_bound:
             st["over"] += 1         # the enumerator is shown ONE cost above the bound (a repaired loop stops there)
-        if st["rounds"] > round_cap or st["over"] > 1 or len(en._cost_list) > (cl_cap or CL_CAP):
+        if st["rounds"] > round_cap or st["over"] > 1:
+            st["reason"] = "bound"          # past every program of the language (or the round cap): it should have stopped
             raise Limit()
-        if st["rounds"] % 4 == 0 and (en.programs_in_banks() > BANK_CAP or time.time() - st["t0"] > TIME_CAP):
-            raise Limit()           # banks of a recursive grammar explode: unaffordable for the differential run
+        if len(en._cost_list) > (cl_cap or CL_CAP) or (st["rounds"] % 4 == 0 and (en.programs_in_banks() > BANK_CAP or time.time() - st["t0"] > TIME_CAP)):
+            st["reason"] = "budget"         # unaffordable for the differential run: inconclusive, not a failure
+            raise Limit()
         return nts, c
     en._next_cheapest_ = wrapped
     return st
@@ -427,7 +429,7 @@ def tables_of_model(ans, wire):
 
 # --------------------------------------------------------------------------- one case
 def nonterminal_with_args_cost0(g, cost):
-    """decidable classifier of finding C02-F4 / C03-F5 / C12-F5: a rule WITH ARGUMENTS has integer cost 0
+    """decidable classifier of finding C02-F6 / C03-F8 / C12-F9: a rule WITH ARGUMENTS has integer cost 0
     (= the negation of the hypothesis PS.Bee.posArgCosts of the completeness theorems)"""
     return any(len(args) > 0 and cost[S][P] <= 0 for S, rs in g.rules.items() for P, (args, _) in rs.items())
 
@@ -564,7 +566,7 @@ def run_case(case, M, tier="quick"):
             plan = [("take", pre)]
             steps, script, err, cut, it = run_script(en, plan, lang_progs, 4 * limit + 10)
         out["prefix"] = pre
-    out.update(steps=steps, script=script, err=err, cut=cut, rounds=st["rounds"], en=en)
+    out.update(steps=steps, script=script, err=err, cut=cut, rounds=st["rounds"], en=en, budget_cut=bool(cut and st.get("reason") == "budget"))
     # ---- second run, not cut: exactly the programs of the first one; tables at the last suspension
     en2 = fresh()
     if pred is not None:
@@ -655,7 +657,7 @@ def costs_of_yielded(r):
     return [cost_of(r["g"], r["cost"], p, r["g"].start) for p in flat(r["steps"])]
 
 
-FINDING_IDS = {"C02": {"zero": "C02-F4"}, "C03": {"zero": "C03-F5"}, "C12": {"zero": "C12-F5", "merge": "C12-F6", "stop": "C12-F7"}}
+FINDING_IDS = {"C02": {"zero": "C02-F6"}, "C03": {"zero": "C03-F8"}, "C12": {"zero": "C12-F9", "merge": "C12-F10", "stop": "C12-F11"}}
 
 
 def base_tags(case, r):
@@ -665,8 +667,10 @@ def base_tags(case, r):
     if r["lang"] is not None:
         n = len(r["lang"])
         tags.append("lang<10" if n < 10 else "lang<100" if n < 100 else "lang<1000" if n < 1000 else "lang>=1000")
-    tags.append("zero-cost-rule-with-arguments(C02-F4 region)" if r["zero"] else "positive-costs")
-    if r.get("cut"):
+    tags.append("zero-cost-rule-with-arguments(C02-F6 region)" if r["zero"] else "positive-costs")
+    if r.get("budget_cut"):
+        tags.append("inconclusive:run-cut-by-time/size-budget")
+    elif r.get("cut"):
         tags.append("run-cut-by-harness-bound")
     return tags
 
